@@ -288,6 +288,7 @@ Definition state_registry : list (string * string * string) := [
   ("pkg/evaluator.ErrAssignmentTarget", "ref", "error sentinel, never reassigned, compared with errors.Is");
   ("pkg/evaluator.ErrBadArguments", "ref", "error sentinel, never reassigned, compared with errors.Is");
   ("pkg/evaluator.ErrBadRepetition", "ref", "error sentinel, never reassigned, compared with errors.Is");
+  ("pkg/evaluator.ErrCallDepth", "ref", "error sentinel (call depth limit, fix 05fc82e), never reassigned, compared with errors.Is");
   ("pkg/evaluator.ErrBounds", "ref", "error sentinel, never reassigned, compared with errors.Is");
   ("pkg/evaluator.ErrIndexValue", "ref", "error sentinel, never reassigned, compared with errors.Is");
   ("pkg/evaluator.ErrInternal", "ref", "error sentinel, never reassigned, compared with errors.Is");
